@@ -1,34 +1,57 @@
-// Harness unit for persisted chunk files (C04): the real ChunkStore (constructor, put, get_record, sweep_expired, wipe_persisted_chunk)
-// with persistence on. The three members that touch the operating system - ensure_storage_directory, persist_chunk_to_disk and
-// secure_wipe_file (std::filesystem + fstream code) - and chunk_path_for_key are redirected (engine) to a MODEL DISK kept by the
-// harness (path -> bytes, with arbitrary write failures). What is decided is when the store creates and removes files; the
-// primitives' own file I/O is not encoded. Natively the real primitives run against a scratch directory.
+// Harness unit for persisted chunk files (C04): the real ChunkStore (constructor, put, get_record, sweep_expired, persist_chunk_to_disk,
+// wipe_persisted_chunk) with persistence on, over a MODEL DISK kept by the harness (path -> present / length / first byte).
+// In the engine the operating-system primitives are the model: std::ofstream is a source-level class writing to the model disk whose
+// open, write (short write of a prefix) and flush may each fail; std::filesystem::status (behind exists()) reads the model disk;
+// ensure_storage_directory, chunk_path_for_key and secure_wipe_file (directory creation, path building, overwrite passes + remove)
+// are redirected to harness functions. Natively the real primitives run against a scratch directory.
 #include "stdmodels.h"
+#include <fstream>
+#include <filesystem>
 #define private public
 #include "ephemeralnet/storage/ChunkStore.hpp"
 #undef private
-#include "src/core/ChunkStore.cpp"
 #include <map>
 #include <cstdlib>
-using namespace ephemeralnet;
 namespace {
 struct ModelFile { bool present = false; std::uint8_t b0 = 0; std::size_t len = 0; unsigned wipes = 0; };
 ModelFile g_disk[2];
 int slot_for_key(const std::string& key) { return key[0] == '0' ? 0 : 1; }      // make_id(0) starts with byte 0x0A -> "0a..", make_id(1) with 0xB0 -> "b0.."
 constexpr long long kNs = 1000000000LL;
-ChunkId make_id(int which) { ChunkId id{}; for (std::size_t i = 0; i < 32; ++i) id[i] = static_cast<std::uint8_t>(which ? 0xB0 + i : 0x0A + 3 * i); return id; }
+ephemeralnet::ChunkId make_id(int which) { ephemeralnet::ChunkId id{}; for (std::size_t i = 0; i < 32; ++i) id[i] = static_cast<std::uint8_t>(which ? 0xB0 + i : 0x0A + 3 * i); return id; }
 }
+#ifndef VERIF_NATIVE
+namespace verif_io {
+// the output stream of persist_chunk_to_disk: opening creates / truncates the file; open, write and flush may fail; a failing write may
+// have put a prefix of the data on the disk already
+struct ChunkOut {
+    int slot; bool ok;
+    ChunkOut(const std::filesystem::path& p, std::ios::openmode) : slot(slot_for_key(p.native())), ok(!nondet_bool("open_fails")) { if (ok) { g_disk[slot].present = true; g_disk[slot].len = 0; g_disk[slot].b0 = 0; } }
+    bool operator!() const { return !ok; }
+    explicit operator bool() const { return ok; }
+    ChunkOut& write(const char* p, std::streamsize n) {
+        if (!ok) return *this;
+        std::size_t k = static_cast<std::size_t>(n);
+        if (nondet_bool("write_fails")) { ok = false; const std::uint8_t part = nondet_u8("bytes_written_before_failure"); verif_assume(part < k || k == 0); k = k ? verif_concretize(part, 4) : 0; }
+        g_disk[slot].len = k; g_disk[slot].b0 = k ? static_cast<std::uint8_t>(p[0]) : 0;
+        return *this;
+    }
+    ChunkOut& flush() { if (ok && nondet_bool("flush_fails")) ok = false; return *this; }
+};
+}
+namespace std { using verif_chunk_out_alias = verif_io::ChunkOut; }
+#define ofstream verif_chunk_out_alias
+#endif
+#include "src/core/ChunkStore.cpp"
+#ifndef VERIF_NATIVE
+#undef ofstream
+#endif
+using namespace ephemeralnet;
 #ifndef VERIF_NATIVE
 extern "C" void h_path_split_stub(std::filesystem::path*) {}
 extern "C" bool h_ensure_dir(ChunkStore*) { return true; }
 extern "C" void h_chunk_path(std::filesystem::path* out, const ChunkStore*, const std::string* key) { new (out) std::filesystem::path(*key); }
-extern "C" bool h_persist(ChunkStore* self, const std::string* key, const ChunkRecord* record) {
-    if (!self->persistent_enabled_) return false;
-    ModelFile& f = g_disk[slot_for_key(*key)];
-    if (f.present) { f.present = false; ++f.wipes; }                    // the real primitive wipes an existing file first
-    if (nondet_bool("write_fails")) return false;                       // open/write/flush failure: the real primitive leaves no file behind
-    f.present = true; f.len = record->data.size(); f.b0 = record->data.empty() ? 0 : record->data[0];
-    return true;
+extern "C" std::filesystem::file_status h_fs_status(const std::filesystem::path* p) {
+    return std::filesystem::file_status(g_disk[slot_for_key(p->native())].present ? std::filesystem::file_type::regular : std::filesystem::file_type::not_found);
 }
 extern "C" bool h_wipe(const ChunkStore*, const std::filesystem::path* path) {
     ModelFile& f = g_disk[slot_for_key(path->native())];
